@@ -210,3 +210,83 @@ Proof.
   exists (fun _ => []), [OReq (mkReq [97] 0 VExecute VPermit); OReq (mkReq [98] 1 VBlock VBlock)], 1%nat.
   eexists. eexists. eexists. vm_compute. repeat split; try reflexivity. discriminate.
 Qed.
+
+(* ---------------------------------------------------------------------- *)
+(* overlapping requests                                                     *)
+
+(* c07_overlap_completed_is_own_gate / c07_overlap_token_bound / c07_overlap_cache_same_verdict:
+   request 0 for "a" (EXECUTE/PERMIT) is in flight while a whole request for "b" (BLOCK/BLOCK) is
+   answered; when it returns, its reply is its own (passes, token bound to H "a"), and afterwards both
+   prompts are served from the cache, each with its own verdict. *)
+Definition xhist1 : list xop :=
+  [ XBegin 0 (mkReq [97] 0 VExecute VPermit); XAtomic (OReq (mkReq [98] 1 VBlock VBlock)); XEnd 0 2;
+    XAtomic (OReq (mkReq [97] 3 VBlock VBlock)); XAtomic (OReq (mkReq [98] 4 VExecute VPermit)) ].
+
+Example ex_overlap_other_prompt :
+  let tr := xtrace hash_x (fun p => p) cf_and bc_off xhist1 in
+  nth_error tr 0 = Some (EvInFlight 0 (mkReq [97] 0 VExecute VPermit) 0%nat) /\
+  (exists rp, nth_error tr 2 = Some (EvCompleted 0 (mkReq [97] 0 VExecute VPermit) 2 rp) /\
+              r_core rp = mkCore true ASuccess false (Some (mkToken [7; 97] [89])) /\ r_cache_size rp = 2%nat) /\
+  map (fun e => match xreply e with
+                | Some (_, r) => (r_cached r, c_blocked (r_core r), c_token (r_core r))
+                | None => (false, false, None) end) tr
+  = [ (false, false, None); (false, true, None); (false, false, Some (mkToken [7; 97] [89]));
+      (true, false, Some (mkToken [7; 97] [89])); (true, true, None) ].
+Proof. vm_compute. split; [reflexivity|]. split; [eexists; repeat split; reflexivity | reflexivity]. Qed.
+
+Example ex_xhist1_keys_injective :
+  forall a b, (In (XAtomic (OReq a)) xhist1 \/ exists id, In (XBegin id a) xhist1) ->
+              (In (XAtomic (OReq b)) xhist1 \/ exists id, In (XBegin id b) xhist1) ->
+              (fun p : str => p) (q_prompt a) = (fun p : str => p) (q_prompt b) -> q_prompt a = q_prompt b.
+Proof. intros a b _ _ E. exact E. Qed.
+
+(* two requests for ONE prompt in flight together: both go to the agents (a request in flight has stored
+   nothing), each returns its own verdict, and the cache afterwards holds the reply of the one that
+   returned last *)
+Example ex_overlap_same_prompt :
+  map (fun e => match e with
+                | EvInFlight id _ n => (id, false, false, n)
+                | EvCompleted id _ _ r => (id, r_cached r, c_blocked (r_core r), r_cache_size r)
+                | EvAtomic ((_, Some r, n), _) => (-1, r_cached r, c_blocked (r_core r), n)
+                | _ => (-2, false, false, 0%nat) end)
+      (xtrace hash_x (fun p => p) cf_and bc_off
+         [ XBegin 0 (mkReq [97] 0 VExecute VPermit); XBegin 1 (mkReq [97] 1 VBlock VBlock); XEnd 1 2;
+           XAtomic (OReq (mkReq [97] 3 VExecute VPermit)); XEnd 0 4; XAtomic (OReq (mkReq [97] 4 VBlock VBlock)) ])
+  = [ (0, false, false, 0%nat); (1, false, false, 0%nat); (1, false, true, 1%nat);
+      (-1, true, true, 1%nat); (0, false, false, 1%nat); (-1, true, false, 1%nat) ].
+Proof. vm_compute. reflexivity. Qed.
+
+(* the TTL (5 here) counts from the moment the reply was produced (the end, clock 10), not from the begin
+   (clock 0): a hit at 14, a fresh evaluation at 15; and an end for which nothing is in flight is a no-op *)
+Example ex_overlap_stamped_at_return :
+  map (fun e => match xreply e with Some (_, r) => (r_cached r, r_exec_called r) | None => (false, false) end)
+      (xtrace hash_x (fun p => p) cf_and bc_off
+         [ XBegin 0 (mkReq [97] 0 VExecute VPermit); XEnd 0 10; XEnd 0 11;
+           XAtomic (OReq (mkReq [97] 14 VBlock VBlock)); XAtomic (OReq (mkReq [97] 15 VBlock VBlock)) ])
+  = [ (false, false); (false, true); (false, false); (true, false); (false, true) ].
+Proof. vm_compute. reflexivity. Qed.
+
+(* with a breaker (opens at the 2nd failure): two raising requests in flight together; the second
+   failure, recorded when the second of them RETURNS, opens the breaker - the begin after that is turned
+   away at once (EvReturned, not admitted), and its end finds nothing in flight *)
+Example ex_overlap_breaker :
+  map (fun e => match e with
+                | EvInFlight _ _ _ => 0 | EvCompleted _ _ _ r => 1 + action_code (c_action (r_core r))
+                | EvReturned _ _ r adm => 10 + action_code (c_action (r_core r)) + (if adm then 100 else 0)
+                | EvNoSuch _ _ => -2 | EvAtomic _ => -1 end)
+      (xtrace hash_x (fun p => p) cf_and bc_2
+         [ XBegin 0 (mkReq [97] 0 VRaised VPermit); XBegin 1 (mkReq [98] 0 VExecute VRaised); XEnd 0 1; XEnd 1 2;
+           XBegin 2 (mkReq [99] 3 VExecute VPermit); XEnd 2 4 ])
+  = [0; 0; 5; 5; 15; -2].
+Proof. vm_compute. reflexivity. Qed.
+
+(* c07_overlap_begin_end_is_request / c07_overlap_atomic_is_sequential: both alternatives occur *)
+Example ex_overlap_begin_end :
+  let s0 : lstate := ([], brk0) in
+  let q := mkReq [97] 0 VExecute VPermit in
+  let '(s1, rp, _) := bstep hash_x (fun p => p) cf_and bc_off s0 q in
+  r_exec_called rp = true /\
+  r_exec_called (snd (fst (bstep hash_x (fun p => p) cf_and bc_off s1 (mkReq [97] 1 VBlock VBlock)))) = false /\
+  xtrace hash_x (fun p => p) cf_and bc_off (map XAtomic hist1)
+    = map EvAtomic (betrace hash_x (fun p => p) cf_and bc_off hist1).
+Proof. vm_compute. repeat split; reflexivity. Qed.
